@@ -13,10 +13,11 @@ Proof.
   split; [apply (css_scan_cut _ rest); assumption|]. split; assumption.
 Qed.
 
-(* the token types whose shape is characterised here; the others (names, dimensions, urls) are not *)
+(* the token types whose shape is characterised here; the others (urls) are not *)
 Definition shaped (ty : ttype) : bool :=
   match ty with
   | TWhitespace | TComment | TDelim | TNumber | TPercentage | TUnicodeRange | TString | TBadString
+  | TIdent | TCustomPropertyName | TFunction | TAtKeyword | THash | TDimension
   | TColon | TSemicolon | TComma | TLeftParenthesis | TRightParenthesis | TLeftBracket | TRightBracket | TLeftBrace | TRightBrace
   | TIncludeMatch | TDashMatch | TPrefixMatch | TSuffixMatch | TSubstringMatch | TColumn | TCDO | TCDC => true
   | _ => false
@@ -30,6 +31,12 @@ Definition badstr_shape (b : list Z) : Prop :=
   exists q body nl, is_quote q /\ b = q :: body ++ [nl] /\ sbody q body [nl] /\ is_nl nl = true.
 Definition string_shape (ty : ttype) (b : list Z) : Prop :=
   match ty with TString => str_shape b | TBadString => badstr_shape b | _ => False end.
+
+Definition at_shape (b : list Z) : Prop := exists name, b = 64 :: name /\ (ident_text name [] \/ custom_text name []).
+Definition hash_shape (b : list Z) : Prop := exists body, b = 35 :: body /\ body <> [] /\ nbody body [].
+Definition func_shape (b : list Z) : Prop := exists name, b = name ++ [40] /\ ident_text name [40] /\ is_url_name name = false.
+Definition dim_shape (b : list Z) : Prop :=
+  exists num unit, b = num ++ unit /\ num_text num /\ (ident_text unit [] \/ custom_text unit []).
 
 Definition ur_shape (t : list Z) : Prop :=
   (exists u h q, t = u :: 43 :: h ++ q /\ (u = 117 \/ u = 85) /\ all_b is_hex h /\ all_b is_qmark q /\ 1 <= len h + len q <= 6) \/
@@ -47,6 +54,12 @@ Definition tok_shape (ty : ttype) (b : list Z) : Prop :=
   | TUnicodeRange => ur_shape b
   | TString => str_shape b
   | TBadString => badstr_shape b
+  | TIdent => ident_text b []
+  | TCustomPropertyName => custom_text b []
+  | TFunction => func_shape b
+  | TAtKeyword => at_shape b
+  | THash => hash_shape b
+  | TDimension => dim_shape b
   | _ => if shaped ty then In (ty, b) fixed_tokens else True
   end.
 
@@ -90,9 +103,6 @@ Qed.
 
 Lemma pos_tok_free t n : shaped t = false -> free_or_delim (fst (pos_tok t n)) (snd (pos_tok t n)).
 Proof. intros H. unfold pos_tok. destruct (0 <? n); cbn [fst snd]; [left; exact H|right; split; reflexivity]. Qed.
-
-Lemma identlike_free l r : consume_identlike l = Some r -> is_err (fst r) = true \/ shaped (fst r) = false.
-Proof. destruct r as [t n]. intros H. destruct (consume_identlike_ty _ _ _ H) as [(-> & _)|[->|[->|[->| ->]]]]; cbn; auto. Qed.
 
 Lemma free_shape ty b : free_or_delim ty (len b) -> b <> [] -> shaped ty = true -> tok_shape ty b.
 Proof.
@@ -461,6 +471,186 @@ Proof.
   - exists q, body. split; [exact Hq|]. right. exists [92]. auto.
 Qed.
 
+(* --- names --------------------------------------------------------------------------------------------------- *)
+Lemma ident_loop_inv : forall m d n, (length d <= m)%nat -> ident_loop (d ++ [0]) 0 = Some n ->
+  exists t r, d = t ++ r /\ len t = n /\ nbody t r.
+Proof.
+  induction m as [|m IH]; intros d n Hlen H.
+  - destruct d as [|c t]; [|cbn [length] in Hlen; lia]. cbn in H. apply Some_inj in H. subst n.
+    exists [], []. split; [reflexivity|]. split; [reflexivity|constructor].
+  - destruct d as [|c t].
+    { cbn in H. apply Some_inj in H. subst n. exists [], []. split; [reflexivity|]. split; [reflexivity|constructor]. }
+    cbn [length] in Hlen. cbn [app] in H. rewrite ident_loop_0 in H.
+    assert (Hstop : Some 0 = Some n -> exists t0 r, c :: t = t0 ++ r /\ len t0 = n /\ nbody t0 r).
+    { intros H0. apply Some_inj in H0. subst n. exists [], (c :: t). split; [reflexivity|]. split; [reflexivity|constructor]. }
+    destruct (ident_char c) eqn:Ec.
+    + apply bump_some in H. destruct H as (k & Hk & ->). assert (Hlt : (length t <= m)%nat) by lia. destruct (IH _ _ Hlt Hk) as (t0 & r & -> & Hl & Hb).
+      exists (c :: t0), r. split; [reflexivity|]. split; [rewrite len_cons; lia|]. apply NB_char; assumption.
+    + destruct (c =? 92) eqn:E92; [|exact (Hstop H)]. assert (c = 92) by lia. subst c.
+      bind_inv H. destruct (0 <? x) eqn:Ex; [|exact (Hstop H)].
+      change (92 :: t ++ [0]) with ((92 :: t) ++ [0]) in E.
+      destruct (escape_inv _ _ E) as (eb & r0 & nb & Hd & Hle & Heb & Hnb); [lia|].
+      destruct (esc_text_bs _ _ Heb) as (e' & -> & He'). cbn [app] in Hd. injection Hd as ->.
+      rewrite len_cons in Hle. replace (Z.to_nat (x - 1)) with (length e') in H by (unfold len in Hle; lia).
+      rewrite <- app_assoc, ident_loop_skipn in H.
+      destruct (ident_loop (r0 ++ [0]) 0) as [k|] eqn:El; [|discriminate H]. cbn [bump] in H. apply Some_inj in H. subst n.
+      assert (Hlt : (length r0 <= m)%nat) by (rewrite app_length in Hlen; lia). destruct (IH _ _ Hlt El) as (t0 & r & -> & Hl & Hb).
+      exists ((92 :: e') ++ t0), r. split; [cbn [app]; rewrite <- app_assoc; reflexivity|].
+      split; [rewrite len_app, len_cons; lia|]. apply (NB_esc _ nb); assumption.
+Qed.
+
+Lemma ident_loop_inv' d n : ident_loop (d ++ [0]) 0 = Some n -> exists t r, d = t ++ r /\ len t = n /\ nbody t r.
+Proof. apply (ident_loop_inv (length d)). apply le_n. Qed.
+
+(* the first item of a name and its body, as ident_tail (not custom) reads them after the prefix *)
+Lemma ident_head_inv d p n :
+  (c <- peekz (d ++ [0]) 0 ;;
+   if ident_start c then n <- ident_loop (tl (d ++ [0])) 0 ;; Some (p + 1 + n)
+   else if c =? 92 then
+     e <- consume_escape (d ++ [0]) ;;
+     if 0 <? e then n <- ident_loop (skipz e (d ++ [0])) 0 ;; Some (p + e + n) else Some 0
+   else Some 0) = Some n -> 0 < n ->
+  exists t r, d = t ++ r /\ len t = n - p /\ ident_core t r.
+Proof.
+  rewrite peekz_sent_0. cbn [option_bind]. intros H Hn. destruct (ident_start (hd0 d)) eqn:Es.
+  - destruct d as [|c t']; [discriminate Es|]. cbn [hd0 app tl] in *. bind_inv H. apply Some_inj in H.
+    destruct (ident_loop_inv' _ _ E) as (t0 & r & -> & Hl & Hb).
+    exists (c :: t0), r. split; [reflexivity|]. split; [rewrite len_cons; lia|]. apply IC_char; assumption.
+  - destruct (hd0 d =? 92) eqn:E92; [|apply Some_inj in H; lia].
+    bind_inv H. destruct (0 <? x) eqn:Ex; [|apply Some_inj in H; lia]. bind_inv H. apply Some_inj in H.
+    destruct (escape_inv _ _ E) as (eb & r0 & nb & -> & Hle & Heb & Hnb); [lia|].
+    rewrite <- app_assoc, <- Hle, skipz_len_app in E0.
+    destruct (ident_loop_inv' _ _ E0) as (t0 & r & -> & Hl & Hb).
+    exists (eb ++ t0), r. split; [rewrite app_assoc; reflexivity|]. split; [rewrite len_app; lia|]. apply (IC_esc _ nb); assumption.
+Qed.
+
+Lemma name_inv d n : consume_ident_token (d ++ [0]) = Some n -> 0 < n ->
+  exists t r, d = t ++ r /\ len t = n /\ (ident_text t r \/ custom_text t r).
+Proof.
+  unfold consume_ident_token. rewrite peekz_sent_0. cbn [option_bind]. intros H Hn.
+  destruct (hd0 d =? 45) eqn:E45.
+  - destruct (hd0_is d 45) as (d1 & ->); [lia|lia|]. cbn [app] in H. rewrite peekz_1, peekz_sent_0 in H. cbn [option_bind] in H.
+    destruct (hd0 d1 =? 45) eqn:E2.
+    + destruct (hd0_is d1 45) as (d2 & ->); [lia|lia|]. unfold ident_tail in H. cbn [app] in H. rewrite skipz_2 in H.
+      bind_inv H. apply Some_inj in H. destruct (ident_loop_inv' _ _ E) as (t0 & r & -> & Hl & Hb).
+      exists (45 :: 45 :: t0), r. split; [reflexivity|]. split; [rewrite !len_cons; lia|]. right. constructor. exact Hb.
+    + unfold ident_tail in H. rewrite skipz_1 in H.
+      destruct (ident_head_inv d1 1 n H Hn) as (t0 & r & -> & Hl & Hc).
+      exists (45 :: t0), r. split; [reflexivity|]. split; [rewrite len_cons; lia|]. left. apply IT_dash. exact Hc.
+  - unfold ident_tail in H. rewrite skipz_0 in H.
+    destruct (ident_head_inv d 0 n H Hn) as (t0 & r & -> & Hl & Hc).
+    exists t0, r. split; [reflexivity|]. split; [lia|]. left. apply IT_core. exact Hc.
+Qed.
+
+Lemma whole (b t r : list Z) : b = t ++ r -> len t = len b -> t = b /\ r = [].
+Proof.
+  intros -> Hl. rewrite len_app in Hl. assert (r = []) by (apply len0_nil; lia). subst r. rewrite app_nil_r. auto.
+Qed.
+
+Lemma name_whole b : consume_ident_token (b ++ [0]) = Some (len b) -> b <> [] -> ident_text b [] \/ custom_text b [].
+Proof.
+  intros H Hne. assert (0 < len b) by (destruct b; [congruence|rewrite len_cons; pose proof (len_nonneg b); lia]).
+  destruct (name_inv _ _ H) as (t & r & Hb & Hl & Ht); [lia|]. destruct (whole _ _ _ Hb Hl) as [-> ->]. exact Ht.
+Qed.
+
+Lemma not_ident_dd rest r : ~ ident_text (45 :: 45 :: rest) r.
+Proof.
+  intros H. inversion H as [t r0 Hc|t r0 Hc]; subst; apply ident_core_hd in Hc; cbn [hd0] in Hc; destruct Hc as [Hc|Hc]; discriminate Hc.
+Qed.
+
+Lemma custom_inv b : consume_custom_variable (b ++ [0]) = Some (len b) -> hd0 b = 45 -> custom_text b [].
+Proof.
+  intros H Hhd. destruct (hd0_is b 45 Hhd) as (b1 & ->); [lia|]. assert (Hne : 45 :: b1 <> []) by discriminate.
+  assert (Hpos : 0 < len (45 :: b1)) by (rewrite len_cons; pose proof (len_nonneg b1); lia).
+  unfold consume_custom_variable in H. bind_inv H. destruct (negb (x =? 45)) eqn:E1; [apply Some_inj in H; lia|].
+  apply negb_false_iff in E1. cbn [app] in E. rewrite peekz_1, peekz_sent_0 in E. apply Some_inj in E.
+  destruct (hd0_is b1 45) as (b2 & ->); [lia|lia|].
+  destruct (name_whole _ H Hne) as [Hi|Hc]; [|exact Hc]. exfalso. exact (not_ident_dd _ _ Hi).
+Qed.
+
+Lemma at_inv b' : consume_at_keyword ((64 :: b') ++ [0]) = Some (len (64 :: b')) -> at_shape (64 :: b').
+Proof.
+  unfold consume_at_keyword. cbn [app tl]. intros H. bind_inv H. pose proof (len_nonneg b'). rewrite len_cons in H.
+  destruct (0 <? x) eqn:Ex; apply Some_inj in H; [|lia]. assert (x = len b') by lia. subst x.
+  exists b'. split; [reflexivity|]. apply name_whole; [exact E|]. intros ->. change (len (@nil Z)) with 0 in Ex. lia.
+Qed.
+
+Lemma hash_inv b' : consume_hash ((35 :: b') ++ [0]) = Some (len (35 :: b')) -> hash_shape (35 :: b').
+Proof.
+  unfold consume_hash. cbn [app tl]. rewrite peekz_sent_0. cbn [option_bind]. intros H. pose proof (len_nonneg b'). rewrite len_cons in H.
+  destruct (ident_char (hd0 b')) eqn:Ec.
+  - destruct b' as [|c1 b2]; [discriminate Ec|]. cbn [hd0 app tl] in *. bind_inv H. apply Some_inj in H. rewrite len_cons in H.
+    destruct (ident_loop_inv' _ _ E) as (t & r & Hb & Hl & Hn). destruct (whole _ _ _ Hb) as [-> ->]; [lia|].
+    exists (c1 :: b2). split; [reflexivity|]. split; [discriminate|]. apply NB_char; assumption.
+  - destruct (hd0 b' =? 92) eqn:E92; [|apply Some_inj in H; lia].
+    bind_inv H. destruct (0 <? x) eqn:Ex; [|apply Some_inj in H; lia]. bind_inv H. apply Some_inj in H.
+    destruct (escape_inv _ _ E) as (eb & r0 & nb & -> & Hle & Heb & Hnb); [lia|].
+    rewrite <- app_assoc, <- Hle, skipz_len_app in E0.
+    destruct (ident_loop_inv' _ _ E0) as (t & r & Hb & Hl & Hn). rewrite len_app in H. destruct (whole _ _ _ Hb) as [-> ->]; [lia|].
+    exists (eb ++ r0). split; [reflexivity|]. split; [destruct (esc_text_bs _ _ Heb) as (e' & -> & _); discriminate|].
+    replace r0 with (r0 ++ []) in Hnb by apply app_nil_r. apply (NB_esc _ nb); assumption.
+Qed.
+
+(* consumeIdentlike up to the decision between identifier, function and url *)
+Lemma identlike_name d ty n : consume_identlike (d ++ [0]) = Some (ty, n) -> ty = TIdent \/ ty = TFunction ->
+  exists name r, d = name ++ r /\ (ident_text name r \/ custom_text name r) /\
+    consume_ident_token (d ++ [0]) = Some (len name) /\ 0 < len name /\
+    ((ty = TIdent /\ n = len name) \/ (ty = TFunction /\ n = len name + 1 /\ hd0 r = 40 /\ is_url_name name = false)).
+Proof.
+  unfold consume_identlike. intros H Hty. bind_inv H.
+  destruct (x =? 0) eqn:E0; [apply Some_pair_inj in H; destruct H as [<- _]; destruct Hty; discriminate|].
+  destruct (consume_ident_token_ok d) as (m & Hm & Hm0). rewrite E in Hm. apply Some_inj in Hm. subst m.
+  destruct (name_inv _ _ E) as (name & r & -> & Hl & Hname); [lia|].
+  rewrite <- app_assoc in H. rewrite <- Hl in H. rewrite skipz_len_app, firstz_len_app in H.
+  rewrite peekz_sent_0 in H. cbn [option_bind] in H. exists name, r. split; [reflexivity|]. split; [exact Hname|].
+  split; [rewrite Hl; reflexivity|]. split; [lia|].
+  destruct (negb (hd0 r =? 40)) eqn:E40; [apply Some_pair_inj in H; destruct H as [<- <-]; left; auto|].
+  apply negb_false_iff in E40.
+  destruct (negb (is_url_name name)) eqn:Eu; [apply Some_pair_inj in H; destruct H as [<- <-]; right; apply negb_true_iff in Eu; repeat split; auto; lia|].
+  exfalso. bind_inv H. unfold url_arg in H.
+  assert (Hu : ty = TURL \/ ty = TBadURL) by (inv_all H; try (some_inv H; auto; fail); apply url_end_ty in H; exact H).
+  destruct Hty, Hu; congruence.
+Qed.
+
+Lemma tail_sent (b t r : list Z) : b ++ [0] = t ++ r -> len t <= len b -> exists r', r = r' ++ [0] /\ b = t ++ r'.
+Proof.
+  intros H Hl. pose proof (len_nonneg t). rewrite <- (firstz_skipz (len t) b) in H. rewrite <- app_assoc in H.
+  apply app_len_inj in H; [|apply len_firstz; lia]. destruct H as [H1 H2]. exists (skipz (len t) b). split; [symmetry; exact H2|].
+  pose proof (firstz_skipz (len t) b) as Hfs. rewrite H1 in Hfs. symmetry. exact Hfs.
+Qed.
+
+Lemma dimension_inv b : consume_numeric (b ++ [0]) = Some (TDimension, len b) -> dim_shape b.
+Proof.
+  unfold consume_numeric. intros H. bind_inv H. destruct (x =? 0) eqn:E0; [apply Some_pair_inj in H; destruct H; discriminate|].
+  bind_inv H. destruct (consume_number_token_ok b) as (m & Hm & Hx). rewrite E in Hm. apply Some_inj in Hm. subst m.
+  destruct (number_token_inv _ _ E) as (t & r & Hl & Hlt & Hnum); [lia|].
+  destruct (tail_sent _ _ _ Hl) as (r' & -> & ->); [lia|].
+  assert (Hsk : skipz x ((t ++ r') ++ [0]) = r' ++ [0]) by (rewrite <- app_assoc, <- Hlt; apply skipz_len_app). rewrite Hsk in *.
+  destruct (0 <? x0); [apply Some_pair_inj in H; destruct H; discriminate|].
+  bind_inv H. destruct (0 <? x1) eqn:Ei; apply Some_pair_inj in H; destruct H as [H Hn]; [|discriminate H].
+  destruct (name_inv _ _ E2) as (unit & r2 & Hr & Hlu & Hunit); [lia|]. rewrite len_app in Hn.
+  destruct (whole _ _ _ Hr) as [-> ->]; [lia|]. exists t, r'. auto.
+Qed.
+
+Lemma identlike_case b x ty : consume_identlike (b ++ [0]) = Some x -> Some (or_delim x) = Some (ty, len b) ->
+  (forall rest n, b = 45 :: 45 :: rest -> consume_ident_token (b ++ [0]) = Some n -> n <= 0) ->
+  b <> [] -> shaped ty = true -> tok_shape ty b.
+Proof.
+  destruct x as [t n]. intros E H Hnc Hne Hs.
+  destruct (consume_identlike_ty _ _ _ E) as [(-> & _)|[->|[->|[->| ->]]]]; unfold or_delim in H; cbn [fst is_err] in H;
+    apply Some_pair_inj in H; destruct H as [<- Hn].
+  - subst n. destruct (identlike_name _ _ _ E (or_introl eq_refl)) as (name & r & Hb & Hname & Htok & Hpos & [(_ & Hn)|(Hx & _)]); [|discriminate Hx].
+    destruct (whole _ _ _ Hb (eq_sym Hn)) as [-> ->]. destruct Hname as [Hi|Hc]; [exact Hi|]. exfalso.
+    inversion Hc; subst. specialize (Hnc _ _ eq_refl Htok). lia.
+  - destruct b as [|c b']; [congruence|]. apply delim_shape, Hn.
+  - subst n. destruct (identlike_name _ _ _ E (or_intror eq_refl)) as (name & r & Hb & Hname & Htok & Hpos & [(Hx & _)|(_ & Hn & H40 & Hu)]); [discriminate Hx|].
+    destruct (hd0_is r 40 H40) as (r' & ->); [lia|]. rewrite Hb, len_app in Hn. nil_of r' Hn.
+    cbn [tok_shape]. exists name. split; [exact Hb|]. split; [|exact Hu]. destruct Hname as [Hi|Hc]; [exact Hi|]. exfalso.
+    inversion Hc; subst. cbn [app] in Hnc. specialize (Hnc _ _ eq_refl Htok). lia.
+  - discriminate Hs.
+  - discriminate Hs.
+Qed.
+
 Lemma numeric_case b x ty : consume_numeric (b ++ [0]) = Some x -> Some (or_delim x) = Some (ty, len b) ->
   b <> [] -> shaped ty = true -> tok_shape ty b.
 Proof.
@@ -469,7 +659,7 @@ Proof.
   - destruct b as [|c b']; [congruence|]. apply delim_shape, Hn.
   - subst n. apply numeric_shape; [exact E|auto].
   - subst n. apply numeric_shape; [exact E|auto].
-  - discriminate Hs.
+  - subst n. exact (dimension_inv b E).
 Qed.
 
 (* C07 (converse, for the shaped types): the scan of a token on its own bytes determines its shape *)
@@ -494,7 +684,8 @@ Proof.
     lia. }
   (* hash *)
   destruct (c =? 35) eqn:E35.
-  { bind_inv H. free_case H. apply pos_tok_free. reflexivity. }
+  { bind_inv H. unfold pos_tok in H. destruct (0 <? x); res H Hn; [|apply delim_shape, Hn].
+    subst x. assert (c = 35) by lia. subst c. exact (hash_inv b' E). }
   (* strings *)
   destruct ((c =? 34) || (c =? 39)) eqn:Eq.
   { bind_inv H. assert (Hq : is_quote c) by (unfold is_quote; lia). destruct x as [t n].
@@ -514,13 +705,18 @@ Proof.
       cbn [app] in E. rewrite peekz_2, peekz_1, peekz_sent_0 in E. cbn [option_bind] in E. apply Some_inj in E.
       destruct (hd0 b1 =? 62) eqn:E2; [|lia]. destruct (hd0_is b1 62) as (b2 & ->); [lia|lia|].
       subst x. nil_of b2 Hn. assert (c = 45) by lia. subst c. cbn. in_fixed.
-    - bind_inv H. destruct (0 <? x0) eqn:Ecv; [res H Hn; discriminate Hs|].
+    - bind_inv H. destruct (0 <? x0) eqn:Ecv; [res H Hn; subst x0; apply (custom_inv (c :: b')); [exact E0|cbn [hd0]; lia]|].
       bind_inv H. destruct (negb (is_err (fst x1))) eqn:Eil.
-      + free_case H. destruct (identlike_free _ _ E1) as [Hx|Hx]; [apply negb_true_iff in Eil; congruence|left; exact Hx].
+      + apply (identlike_case (c :: b') x1 ty E1); [|  |exact Hne|exact Hs].
+        * unfold or_delim. apply negb_true_iff in Eil. rewrite Eil. exact H.
+        * intros rest n0 Hb Htok. injection Hb as _ Hb'. subst b'. cbn [app] in Htok.
+          unfold consume_custom_variable in E0. cbn [app] in E0. rewrite peekz_1, peekz_0 in E0. cbn [option_bind Z.eqb Pos.eqb negb] in E0.
+          rewrite E0 in Htok. apply Some_inj in Htok. lia.
       + bind_inv H. apply (numeric_case (c :: b') x2 ty E2 H Hne Hs). }
   (* '@' *)
   destruct (c =? 64) eqn:E64.
-  { bind_inv H. free_case H. apply pos_tok_free. reflexivity. }
+  { bind_inv H. unfold pos_tok in H. destruct (0 <? x); res H Hn; [|apply delim_shape, Hn].
+    subst x. assert (c = 64) by lia. subst c. exact (at_inv b' E). }
   (* '$' '*' '^' '~' *)
   destruct ((c =? 36) || (c =? 42) || (c =? 94) || (c =? 126)) eqn:Em.
   { bind_inv H. unfold consume_match in E. rewrite peekz_1, peekz_sent_0, peekz_0 in E. cbn [option_bind] in E.
@@ -561,14 +757,14 @@ Proof.
     - nil_of b4 Hn. assert (c = 60) by lia. subst c. cbn. in_fixed. }
   (* '\' *)
   destruct (c =? 92) eqn:E92.
-  { bind_inv H. free_case H. apply or_delim_free, (identlike_free _ _ E). }
+  { bind_inv H. apply (identlike_case (c :: b') x ty E H); [|exact Hne|exact Hs]. intros rest n0 Hb _. injection Hb as Hc _. lia. }
   (* 'u' 'U' *)
   destruct ((c =? 117) || (c =? 85)) eqn:Eu.
   { bind_inv H. destruct (0 <? x) eqn:Eur.
     { res H Hn. destruct (urange_inv _ _ E) as (t & r & Hl & Hlt & Hsh); [lia|].
       change (c :: b' ++ [0]) with ((c :: b') ++ [0]) in Hl. apply app_len_inj in Hl; [|lia].
       cbn [tok_shape]. rewrite (proj1 Hl). exact Hsh. }
-    bind_inv H. free_case H. apply or_delim_free, (identlike_free _ _ E0). }
+    bind_inv H. apply (identlike_case (c :: b') x0 ty E0 H); [|exact Hne|exact Hs]. intros rest n0 Hb _. injection Hb as Hc _. lia. }
   (* '|' *)
   destruct (c =? 124) eqn:E124.
   { bind_inv H. unfold consume_match in E. rewrite peekz_1, peekz_sent_0, peekz_0 in E. cbn [option_bind] in E.
@@ -588,7 +784,7 @@ Proof.
   (* anything else: a number or a name *)
   bind_inv H. destruct (negb (is_err (fst x))) eqn:En.
   - apply (numeric_case (c :: b') x ty E); [|exact Hne|exact Hs]. unfold or_delim. apply negb_true_iff in En. rewrite En. exact H.
-  - bind_inv H. free_case H. apply or_delim_free, (identlike_free _ _ E1).
+  - bind_inv H. apply (identlike_case (c :: b') x0 ty E1 H); [|exact Hne|exact Hs]. intros rest n0 Hb _. injection Hb as Hc _. lia.
 Qed.
 
 (* C07 (converse, for the shaped types): every token the lexer returns of one of these types has the shape of its type *)
